@@ -1318,7 +1318,7 @@ descend:
 	ks := make([]string, len(ch))
 	for i, c := range ch {
 		ks[i] = c.shortKind()
-		if c.k != kSym && fails(withChild(cur, i, mkCall("z"))) && fails(withChild(cur, i, intLeaf(1))) {
+		if fails(withChild(cur, i, mkCall("z"))) && fails(withChild(cur, i, intLeaf(1))) {
 			ks[i] = "*"
 		}
 	}
@@ -1326,7 +1326,20 @@ descend:
 	case kPipe:
 		return "roundtrip:pipeline:function-is-" + ks[0] + ",arg-is-" + ks[1], cur
 	case kCall:
-		return "roundtrip:call:args=[" + strings.Join(ks, ",") + "]", cur
+		// the kinds of the arguments that matter, as a set
+		seen := map[string]bool{}
+		var rel []string
+		for _, k := range ks {
+			if k != "*" && !seen[k] {
+				seen[k] = true
+				rel = append(rel, k)
+			}
+		}
+		sort.Strings(rel)
+		if len(rel) == 0 {
+			return fmt.Sprintf("roundtrip:call:%d-args-of-any-kind", len(ks)), cur
+		}
+		return "roundtrip:call:with-args-of-kind-" + strings.Join(rel, "+"), cur
 	case kLambda:
 		return fmt.Sprintf("roundtrip:lambda:params=%d,body-is-%s", len(cur.params), ks[0]), cur
 	}
